@@ -2,13 +2,10 @@ use grafeo_engine::GrafeoDB;
 fn main() {
     let db = GrafeoDB::new_in_memory();
     let s = db.session();
-    for i in 0..13 { s.execute_sparql(&format!("INSERT DATA {{ <http://a/s{}> <http://a/p{}> <http://a/o{}> }}", i%4, i%3, i)).unwrap(); }
-    for n in [1000usize, 2000, 4000] {
-        let mut q = String::from("SELECT ?s WHERE { ?s ?p ?o ");
-        for _ in 0..n { q.push_str("; ?p ?o "); }
-        q.push('}');
-        let t = std::time::Instant::now();
-        let r = s.execute_sparql(&q);
-        println!("n={n} {:?} rows={:?}", t.elapsed(), r.map(|r| r.rows.len()).map_err(|e| e.to_string()));
+    let setup: Vec<String> = std::env::args().skip(1).collect();
+    for q in &setup {
+        let (lang, text) = q.split_once(':').unwrap();
+        let r = match lang { "cypher" => s.execute_cypher(text), "gremlin" => s.execute_gremlin(text), _ => s.execute(text) };
+        match r { Ok(r) => println!("{q}\n  -> {} rows: {:?}", r.rows.len(), r.rows.iter().take(20).collect::<Vec<_>>()), Err(e) => println!("{q}\n  -> ERR {e}") }
     }
 }
